@@ -36,7 +36,10 @@ func c09Input(k int) []any {
 	case 5:
 		return []any{map[string]any{"t": map[string]any{"a": 1, "b": c1, "c": 3}, "h": map[string]any{"$merge": "t", "b": "old", "d": c2}, "l": []any{map[string]any{"$repeat": 2, "i": "$repeat"}}}}
 	case 6:
-		return []any{map[string]any{`$"k{a}"`: 1, "a": "x", "kx2": c1, "$env:HOME": 2}}
+		// keys that are evaluated; two of them collide after evaluation
+		// (the interpolated key and the literal "kx"): which one wins must
+		// not depend on iteration order
+		return []any{map[string]any{`$"k{a}"`: 1, "a": "x", "kx": c1, "$env:HOME": 2, "/h": c2}}
 	default:
 		return []any{map[string]any{"a": "$required", "b": "$required", "c": c1}}
 	}
